@@ -314,9 +314,7 @@ def run_all(jobs, seeds):
             procs.append((sd, k, p, json.dumps(jobs[k:k + size])))
     res = {sd: [None] * len(jobs) for sd in seeds}
     errors = []
-    # feed and collect (communicate() one after the other; all processes are already running
-    # but block on stdin, so feed all first through threads-free approach: sequential is fine
-    # because each reads its whole input before working)
+    # all workers run concurrently; one thread per worker feeds its stdin and collects its stdout
     import threading
 
     def feed(p, data, slot):
